@@ -80,4 +80,19 @@ theorem planOk_sound {plan : Plan} {ws : List Int} (h : PlanOk plan ws) :
   simp only [Bool.and_eq_true] at h
   exact ⟨(MlwSpec.weightsInRange_iff ws).mp h.1, sectionsOk_sound plan ws h.2⟩
 
+theorem mapM_some_length {α β : Type} (f : α → Option β) : ∀ (l : List α) (r : List β),
+    l.mapM f = some r → r.length = l.length
+  | [], r, h => by simp at h; subst h; rfl
+  | a :: l, r, h => by
+    rw [List.mapM_cons] at h
+    cases hf : f a with
+    | none => simp [hf] at h
+    | some b =>
+      cases hl : l.mapM f with
+      | none => simp [hf, hl] at h
+      | some r' =>
+        simp [hf, hl] at h
+        subst h
+        simp [mapM_some_length f l r' hl]
+
 end VelaVerif.MlwPlan
